@@ -198,6 +198,7 @@ impl crate::Subscriber<St, Act> for ProbeSubscriber {
 pub fn g_reset() {
     rt::reset_all();
     script::reset();
+    crossbeam::hooks::set_native(Some(rt::default_yield), None);
     unsafe {
         PH = [[PH0; 3]; MAXA];
         SUM_NEED = [false; MAXA];
@@ -230,6 +231,17 @@ macro_rules! glue_harness {
     };
 }
 pub(crate) use glue_harness;
+/// glue harness without placed units: the model's scheduling points only implement the join
+macro_rules! glue_plain {
+    ($(#[$m:meta])* fn $name:ident() $body:block) => {
+        glue_harness! {
+            #[kani::stub(crossbeam::hooks::yield_point, crate::verif_kani::rt::default_yield)]
+            $(#[$m])*
+            fn $name() $body
+        }
+    };
+}
+pub(crate) use glue_plain;
 
 pub const END_STOP: u8 = 0;
 pub const END_CLOSE_STOP: u8 = 1;
@@ -363,14 +375,14 @@ fn g_fold(k: usize, cap: usize, end: u8) {
     finish!(1, 2, 3, 4, 5, 7, 8, 15, 18);
 }
 
-glue_harness! { #[kani::unwind(6)] fn g_fold_k1() { g_fold(1, 2, END_STOP); } }
-glue_harness! { #[kani::unwind(6)] fn g_fold_k2() { g_fold(2, 3, END_STOP); } }
-glue_harness! { #[kani::unwind(7)] fn g_fold_k3() { g_fold(3, 4, END_STOP); } }
-glue_harness! { #[kani::unwind(6)] fn g_fold_k2_close_stop() { g_fold(2, 3, END_CLOSE_STOP); } }
-glue_harness! { #[kani::unwind(6)] fn g_fold_k2_drop() { g_fold(2, 3, END_DROP); } }
-glue_harness! { #[kani::unwind(6)] fn g_fold_k2_close_dispatch_stop() { g_fold(2, 3, END_CLOSE_DISPATCH_STOP); } }
-glue_harness! { #[kani::unwind(6)] fn g_fold_k0_drop() { g_fold(0, 1, END_DROP); } }
-glue_harness! { #[kani::unwind(7)] fn g_fold_k3_drop() { g_fold(3, 4, END_DROP); } }
+glue_plain! { #[kani::unwind(6)] fn g_fold_k1() { g_fold(1, 2, END_STOP); } }
+glue_plain! { #[kani::unwind(6)] fn g_fold_k2() { g_fold(2, 3, END_STOP); } }
+glue_plain! { #[kani::unwind(7)] fn g_fold_k3() { g_fold(3, 4, END_STOP); } }
+glue_plain! { #[kani::unwind(6)] fn g_fold_k2_close_stop() { g_fold(2, 3, END_CLOSE_STOP); } }
+glue_plain! { #[kani::unwind(6)] fn g_fold_k2_drop() { g_fold(2, 3, END_DROP); } }
+glue_plain! { #[kani::unwind(6)] fn g_fold_k2_close_dispatch_stop() { g_fold(2, 3, END_CLOSE_DISPATCH_STOP); } }
+glue_plain! { #[kani::unwind(6)] fn g_fold_k0_drop() { g_fold(0, 1, END_DROP); } }
+glue_plain! { #[kani::unwind(7)] fn g_fold_k3_drop() { g_fold(3, 4, END_DROP); } }
 
 
 // -----------------------------------------------------------------------------------------
@@ -386,6 +398,10 @@ pub static mut PROBE_JOINS: u8 = 0;
 /// bound to `crossbeam::hooks::yield_point`: called by the channel model at the start of
 /// every queue operation and by the pool model inside `shutdown_join*` / `join*`
 pub fn lock_probe(kind: u8, obj: usize) {
+    lock_probe_inner(kind, obj);
+    rt::on_join(kind, obj);
+}
+fn lock_probe_inner(kind: u8, obj: usize) {
     unsafe {
         let s = match G_STORE.as_ref() {
             Some(s) => s,
@@ -521,7 +537,7 @@ fn race_block(_kind: u8, _obj: usize) {
 /// backlog of `b` actions; T2 calls stop(); T1's dispatch runs at placement (kind,obj,occ)
 fn s_race(b: usize, kind: u8, obj: usize, occ: u8, entry: u8) {
     g_reset();
-    crossbeam::hooks::set_native(Some(race_yield), Some(race_block));
+    crossbeam::hooks::set_native(Some(race_yield_pub), Some(race_block));
     let init: St = kani::any();
     let store = mk_glue_store(4, BackpressurePolicy::BlockOnFull, init);
     unsafe {
@@ -585,7 +601,8 @@ macro_rules! race_harness {
     )+ };
 }
 pub fn race_yield_pub(kind: u8, obj: usize) {
-    race_yield(kind, obj)
+    race_yield(kind, obj);
+    rt::on_join(kind, obj);
 }
 pub fn race_block_pub(kind: u8, obj: usize) {
     race_block(kind, obj)
@@ -676,10 +693,10 @@ fn g_full_at_stop(k: usize, policy: u8, end: u8) {
     core::mem::forget(store);
     finish!(4, 6, 9, 15, 18);
 }
-glue_harness! { #[kani::unwind(7)] fn g_full_latest_k2_stop() { g_full_at_stop(2, 2, END_STOP); } }
-glue_harness! { #[kani::unwind(7)] fn g_full_latest_k1_drop() { g_full_at_stop(1, 2, END_DROP); } }
-glue_harness! { #[kani::unwind(7)] fn g_full_oldest_k2_stop() { g_full_at_stop(2, 1, END_STOP); } }
-glue_harness! { #[kani::unwind(7)] fn g_full_oldest_k3_drop() { g_full_at_stop(3, 1, END_DROP); } }
+glue_plain! { #[kani::unwind(7)] fn g_full_latest_k2_stop() { g_full_at_stop(2, 2, END_STOP); } }
+glue_plain! { #[kani::unwind(7)] fn g_full_latest_k1_drop() { g_full_at_stop(1, 2, END_DROP); } }
+glue_plain! { #[kani::unwind(7)] fn g_full_oldest_k2_stop() { g_full_at_stop(2, 1, END_STOP); } }
+glue_plain! { #[kani::unwind(7)] fn g_full_oldest_k3_drop() { g_full_at_stop(3, 1, END_DROP); } }
 
 // -----------------------------------------------------------------------------------------
 // S-read (C08): a reader thread's get_state() placed at channel-level scheduling points of
@@ -702,13 +719,14 @@ fn read_yield(kind: u8, obj: usize) {
     }
 }
 pub fn read_yield_pub(kind: u8, obj: usize) {
-    read_yield(kind, obj)
+    read_yield(kind, obj);
+    rt::on_join(kind, obj);
 }
 /// k actions queued, stop(); the reader runs when the loop is about to take / has just taken
 /// queue item number `occ` (item k is the shutdown marker)
 fn s_read(k: usize, kind: u8, occ: u8) {
     g_reset();
-    crossbeam::hooks::set_native(Some(read_yield), None);
+    crossbeam::hooks::set_native(Some(read_yield_pub), None);
     let init: St = kani::any();
     let store = mk_glue_store(4, BackpressurePolicy::BlockOnFull, init);
     unsafe {
@@ -721,8 +739,8 @@ fn s_read(k: usize, kind: u8, occ: u8) {
         core::mem::forget(StoreImpl::dispatch(&store, kani::any()));
         j += 1;
     }
-    store.stop();
     rt::arm(kind, 0, occ);
+    store.stop();
     rt::run_loop(0);
     unsafe {
         rt::PLACE_ARMED = false;
@@ -788,7 +806,8 @@ fn blk_yield(kind: u8, obj: usize) {
     }
 }
 pub fn blk_yield_pub(kind: u8, obj: usize) {
-    blk_yield(kind, obj)
+    blk_yield(kind, obj);
+    rt::on_join(kind, obj);
 }
 static mut BLK_STOPPED: bool = false;
 fn blk_block(kind: u8, obj: usize) {
@@ -811,7 +830,7 @@ pub fn blk_block_pub(k: u8, o: usize) {
 }
 fn s_block(cap: usize) {
     g_reset();
-    crossbeam::hooks::set_native(Some(blk_yield), Some(blk_block));
+    crossbeam::hooks::set_native(Some(blk_yield_pub), Some(blk_block));
     let store = mk_glue_store(cap, BackpressurePolicy::BlockOnFull, kani::any());
     unsafe {
         core::ptr::write(&mut G_STORE, Some(store.clone()));
@@ -865,7 +884,7 @@ block_harness! {
 }
 
 /// vacuity twin
-glue_harness! { #[kani::unwind(6)] fn twin_g_glue() {
+glue_plain! { #[kani::unwind(6)] fn twin_g_glue() {
     g_reset();
     let init: St = kani::any();
     let store = mk_glue_store(3, BackpressurePolicy::BlockOnFull, init);
